@@ -42,8 +42,8 @@ def run(ctx):
     path = rc.write_ndjson(rc.work_file(ctx, "c26_inst.ndjson"), rows)
     # J1 + generation for J2 in one exhaustive run (quick: the random instances ride along, to save a JVM start)
     scope = dict(max_len=3 if q else 4, max_count=3, max_total=3 if q else 4, epochs=(1, 2, 3, 4),
-                 ks=(1, 2) if q else (1, 2, 3), mcs=(0, 1) if q else (0, 1, 2), mos=(0, 1),
-                 offs=(1, 2), variants=VARIANTS[1:] if q else VARIANTS, emit=True)
+                 ks=(1, 2) if q else (1, 3), mcs=(0, 1) if q else (0, 1, 2), mos=(0, 1),
+                 offs=(1, 2), variants=VARIANTS[1:], emit=True)
     acts = ("Pick", "AddCount", "AddOff", "RunFixed", "StartPoisson", "Column")
     if q:
         r = rc.cp_run(ctx, "c26_j1", rc.SOUND_INVARIANTS + ["EmitInv"], workers=8, inst_file=path, source="both",
@@ -59,6 +59,9 @@ def run(ctx):
         r2 = rc.cp_run(ctx, "c26_j1b", rc.SOUND_INVARIANTS + ["EmitInv"], workers=8, kinds=("fixed",), max_len=5,
                        max_count=4, max_total=8, epochs=(2, 3, 4, 5, 6), emit=True, required=("RunFixed",))
         fixed += rc.group_fixed(r2.rec("fixed"))
+        # the programme without any pruning (plain optimal partitioning), K = 2
+        rc.cp_run(ctx, "c26_j1c", rc.SOUND_INVARIANTS, workers=8, kinds=("poisson",), max_len=4, max_count=3,
+                  max_total=4, ks=(2,), mcs=(0, 1), mos=(0, 1), variants=VARIANTS[:1], required=("Column",))
         # expected refutations: the design as first implemented is unsound (DESIGN section 9 item 10)
         for name, variant, extra in (("prune", "zero/impl", dict(mcs=(1,), mos=(0,))),
                                      ("zero", "nan/impl", dict(mcs=(0,), mos=(0,)))):
